@@ -69,7 +69,7 @@ class Pattern:
         for line in range(self.lines):
             for track in range(self.tracks):
                 new[line][track] = fn(self, line, track)
-        self._data = new
+        self._adopt(new)
         return self
 
     def set_via_gen(self, gen):
@@ -88,8 +88,15 @@ class Pattern:
         new = deepcopy(self.data)
         for line, track, note in gen(self, new):
             new[line][track] = note
-        self._data = new
+        self._adopt(new)
         return self
+
+    def _adopt(self, new):
+        """Install new note data, making this pattern the owner of every note."""
+        for line in new:
+            for note in line:
+                note.pattern = self
+        self._data = new
 
     def iff_chunks(self):
         yield b"PDTA", self.raw_data
